@@ -1,0 +1,62 @@
+//go:build verif
+
+package validation
+
+// Contracts for the deductive verifier in /verif (build tag verif: not compiled into
+// normal builds). Oracle: CSS Values 3 §5 (units are ASCII case-insensitive) and the
+// property statements C08 / C07.
+
+// keywords are matched ASCII case-insensitively: the identifier's lower-cased value
+//@ func getKeyword
+//@   props C08 C07
+//@   nopanic
+//@   modifies nothing
+//@   ensures typeIs(token, pa.Ident) ==> result == utils.AsciiLower(token.(pa.Ident).Value)
+//@   ensures !typeIs(token, pa.Ident) ==> result == ""
+
+//@ func getSingleKeyword
+//@   props C08 C07
+//@   nopanic
+//@   modifies nothing
+//@   ensures len(tokens) == 1 ==> result == getKeyword(tokens[0])
+//@   ensures len(tokens) != 1 ==> result == ""
+
+// <length> / <percentage> tokens: the unit is looked up ASCII case-insensitively
+// ("10PX" is 10px); negative values only where allowed; a bare number only if it is 0.
+//@ func getLength
+//@   props C08 C07
+//@   nopanic
+//@   modifies nothing
+//@   let isDim = typeIs(token, pa.Dimension)
+//@   let d = token.(pa.Dimension)
+//@   let lu = utils.AsciiLower(d.Unit)
+//@   let okSign = negative || d.ValueF >= 0
+//@   ensures[px] isDim && okSign && lu == "px" ==> result.Unit == pr.Px && result.Value == d.ValueF
+//@   ensures[em] isDim && okSign && lu == "em" ==> result.Unit == pr.Em && result.Value == d.ValueF
+//@   ensures[ex] isDim && okSign && lu == "ex" ==> result.Unit == pr.Ex && result.Value == d.ValueF
+//@   ensures[ch] isDim && okSign && lu == "ch" ==> result.Unit == pr.Ch && result.Value == d.ValueF
+//@   ensures[rem] isDim && okSign && lu == "rem" ==> result.Unit == pr.Rem && result.Value == d.ValueF
+//@   ensures[pt] isDim && okSign && lu == "pt" ==> result.Unit == pr.Pt && result.Value == d.ValueF
+//@   ensures[pc] isDim && okSign && lu == "pc" ==> result.Unit == pr.Pc && result.Value == d.ValueF
+//@   ensures[in] isDim && okSign && lu == "in" ==> result.Unit == pr.In && result.Value == d.ValueF
+//@   ensures[cm] isDim && okSign && lu == "cm" ==> result.Unit == pr.Cm && result.Value == d.ValueF
+//@   ensures[mm] isDim && okSign && lu == "mm" ==> result.Unit == pr.Mm && result.Value == d.ValueF
+//@   ensures[q] isDim && okSign && lu == "q" ==> result.Unit == pr.Q && result.Value == d.ValueF
+//@   ensures[unknown-unit] isDim && !in(lu, "px", "em", "ex", "ch", "rem", "pt", "pc", "in", "cm", "mm", "q") ==> result.Unit == 0 && result.Value == 0
+//@   ensures[negative] isDim && !okSign ==> result.Unit == 0 && result.Value == 0
+//@   ensures[percentage] typeIs(token, pa.Percentage) && percentage && (negative || token.(pa.Percentage).ValueF >= 0) ==> result.Unit == pr.Perc && result.Value == token.(pa.Percentage).ValueF
+//@   ensures[no-percentage] typeIs(token, pa.Percentage) && !(percentage && (negative || token.(pa.Percentage).ValueF >= 0)) ==> result.Unit == 0 && result.Value == 0
+//@   ensures[zero] typeIs(token, pa.Number) ==> result.Value == 0 && result.Unit == ite(token.(pa.Number).ValueF == 0, pr.Scalar, 0)
+//@   ensures[other] !isDim && !typeIs(token, pa.Percentage) && !typeIs(token, pa.Number) ==> result.Unit == 0 && result.Value == 0
+
+// <angle> tokens: unit looked up ASCII case-insensitively; radians are returned unchanged
+//@ func getAngle
+//@   props C08 C07
+//@   nopanic
+//@   modifies nothing
+//@   let isDim = typeIs(token, pa.Dimension)
+//@   let d = token.(pa.Dimension)
+//@   let lu = utils.AsciiLower(d.Unit)
+//@   ensures[units] result1 == (isDim && in(lu, "rad", "turn", "deg", "grad"))
+//@   ensures[rad] isDim && lu == "rad" ==> result0 == d.ValueF
+//@   ensures[not-angle] !result1 ==> result0 == 0
